@@ -233,7 +233,21 @@ def suite_cells(ctx):
             try:
                 with warnings.catch_warnings():
                     warnings.simplefilter("ignore")
-                    cnt_pub, out_pub = fornav(cols, rows, area, data_in.copy(), rows_per_scan=rps, fill=fillv, maximum_weight_mode=mwm, **kw)
+                    # the caller's array may have any memory layout: contiguous, Fortran-ordered, a strided view of a larger array
+                    layout = rng.choice(["C", "F", "strided", "reversed"])
+                    if layout == "F":
+                        d_pub = np.asfortranarray(data_in)
+                    elif layout == "strided":
+                        big = np.full((srows, 2 * scols + 1), 77.0, dtype=dtype)
+                        big[:, 1::2] = data_in
+                        d_pub = big[:, 1::2]
+                    elif layout == "reversed":
+                        d_pub = np.ascontiguousarray(data_in[::-1, ::-1])[::-1, ::-1]
+                    else:
+                        d_pub = data_in.copy()
+                    assert np.array_equal(d_pub, data_in, equal_nan=True)
+                    ctx.count(f"cells.public_input_layout.{layout}")
+                    cnt_pub, out_pub = fornav(cols, rows, area, d_pub, rows_per_scan=rps, fill=fillv, maximum_weight_mode=mwm, **kw)
                 out_pub = np.asarray(out_pub, float)
                 if not np.isnan(fillv):
                     out_pub = np.where(out_pub == fillv, np.nan, out_pub)
@@ -251,7 +265,7 @@ def suite_cells(ctx):
                     rep = ctx.M.ask("cell", mwm, F(sum_min).limit_denominator(10**6), len(contrib), *toks).split(" ")
                     mW, mA = float(F(rep[0])), float(F(rep[1]))
                     mOut = None if rep[2] == "fill" else float(F(rep[2]))
-                    cellinp = {**inp, "mode": "max" if mwm else "avg", "cell": [gy, gx], "contributions": [[float(a), None if b is None else float(b)] for a, b in contrib]}
+                    cellinp = {**inp, "mode": "max" if mwm else "avg", "public_input_layout": layout, "cell": [gy, gx], "contributions": [[float(a), None if b is None else float(b)] for a, b in contrib]}
                     tolW = 2e-5 * (1 + abs(mW))
                     tolA = 2e-5 * (1 + abs(mA)) + 2e-5 * sum(abs(a * (b or 0)) for a, b in contrib)
                     if abs(wts[gy, gx] - mW) > tolW or abs(acc[gy, gx] - mA) > tolA:
